@@ -84,7 +84,7 @@ theorem ifcc_go_spec (delta : Int) (done rest : List (Int × Stream)) (h : Strea
 /-- `_flow_control_change_from_settings` on a live connection -/
 theorem wp_fcc_live {Q : Unit → Conn → Prop} {E : Exc → Conn → Prop} (o n : Int) (c : Conn) (hl : Live c)
     (hq : ∀ ss, StreamsNotIdle ss → Q () { c with streams := ss })
-    (he : ∀ e ss, Plain e → E e { c with streams := ss }) : wp (flowControlChangeFromSettings o n) Q E c := by
+    (he : ∀ e ss, Plain e → StreamsNotIdle ss → E e { c with streams := ss }) : wp (flowControlChangeFromSettings o n) Q E c := by
   unfold wp flowControlChangeFromSettings
   simp only
   have hs := fcc_go_spec (n - o) [] c.streams (by simpa using hl.2.2)
@@ -93,11 +93,11 @@ theorem wp_fcc_live {Q : Unit → Conn → Prop} {E : Exc → Conn → Prop} (o 
     rw [hg] at hs
     cases r with
     | ok u => exact hq ss hs.1
-    | error e => exact he e ss (hs.2 e rfl)
+    | error e => exact he e ss (hs.2 e rfl) hs.1
 
 theorem wp_ifcc_live {Q : Unit → Conn → Prop} {E : Exc → Conn → Prop} (o n : Int) (c : Conn) (hl : Live c)
     (hq : ∀ ss, StreamsNotIdle ss → Q () { c with streams := ss })
-    (he : ∀ e ss, Plain e → E e { c with streams := ss }) : wp (inboundFlowControlChangeFromSettings o n) Q E c := by
+    (he : ∀ e ss, Plain e → StreamsNotIdle ss → E e { c with streams := ss }) : wp (inboundFlowControlChangeFromSettings o n) Q E c := by
   unfold wp inboundFlowControlChangeFromSettings
   simp only
   have hs := ifcc_go_spec (n - o) [] c.streams (by simpa using hl.2.2)
@@ -106,26 +106,27 @@ theorem wp_ifcc_live {Q : Unit → Conn → Prop} {E : Exc → Conn → Prop} (o
     rw [hg] at hs
     cases r with
     | ok u => exact hq ss hs.1
-    | error e => exact he e ss (hs.2 e rfl)
+    | error e => exact he e ss (hs.2 e rfl) hs.1
 
 /-- `_local_settings_acked` -/
 theorem wp_localSettingsAcked {Q : List (Int × Option Int × Int) → Conn → Prop} {E : Exc → Conn → Prop} (c : Conn)
-    (hl : Live c) (hq : ∀ a c', Live c' → Q a c') (he : ∀ e c', Plain e → WFb c' → E e c') :
+    (hl : Live c) (hq : ∀ a c', Live c' → Q a c') (he : ∀ e c', Plain e → WF c' → E e c') :
     wp localSettingsAcked Q E c := by
   unfold localSettingsAcked
   wps
   have hack := acknowledge_ok c.localSettings hl.1.ls
+  have hack32 := ls32_acknowledge c.localSettings hl.1.ls32
   have hch := acknowledge_changes c.localSettings hl.1.ls.2.2
   generalize (Settings.acknowledge c.localSettings).1 = changes at *
   generalize (Settings.acknowledge c.localSettings).2 = ls' at *
-  have hl1 : Live { c with localSettings := ls' } := ⟨⟨hack, hl.1.rs, hl.1.mof, hl.1.dec⟩, hl.2.1, hl.2.2⟩
+  have hl1 : Live { c with localSettings := ls' } := ⟨⟨hack, hl.1.rs, hl.1.mof, hl.1.dec, hack32⟩, hl.2.1, hl.2.2⟩
   have fin : ∀ ss, StreamsNotIdle ss →
       Q changes (localOtherChanges changes { c with localSettings := ls', streams := ss }) := by
     intro ss hss
     apply hq
     unfold localOtherChanges
     repeat' split
-    all_goals exact ⟨⟨hack, hl.1.rs, hl.1.mof, hl.1.dec⟩, hl.2.1, hss⟩
+    all_goals exact ⟨⟨hack, hl.1.rs, hl.1.mof, hl.1.dec, hack32⟩, hl.2.1, hss⟩
   unfold localWindowChange
   cases hf : findChange changes SettingCodes.INITIAL_WINDOW_SIZE with
   | none => wps; exact fin _ hl1.2.2
@@ -139,7 +140,7 @@ theorem wp_localSettingsAcked {Q : List (Int × Option Int × Int) → Conn → 
       simp only
       apply wp_ifcc_live _ _ _ hl1
       · intro ss hss; wps; exact fin ss hss
-      · intro e ss hp; exact he _ _ hp ⟨hack, hl.1.rs, hl.1.mof, hl.1.dec⟩
+      · intro e ss hp hss; exact he _ _ hp ⟨⟨hack, hl.1.rs, hl.1.mof, hl.1.dec, hack32⟩, fun _ => hss⟩
 
 
 theorem notIdle_mapMax {ss : List (Int × Stream)} (n : Int) (h : StreamsNotIdle ss) :
@@ -152,7 +153,7 @@ theorem notIdle_mapMax {ss : List (Int × Stream)} (n : Int) (h : StreamsNotIdle
 
 /-- `_acknowledge_settings` -/
 theorem wp_acknowledgeSettings {Q : List Frame → Conn → Prop} {E : Exc → Conn → Prop} (c : Conn)
-    (hl : Live c) (hq : ∀ fs c', Live c' → FramesOk fs → Q fs c') (he : ∀ e c', Plain e → WFb c' → E e c') :
+    (hl : Live c) (hq : ∀ fs c', Live c' → FramesOk fs → Q fs c') (he : ∀ e c', Plain e → WF c' → E e c') :
     wp acknowledgeSettings Q E c := by
   unfold acknowledgeSettings
   wps
@@ -164,7 +165,7 @@ theorem wp_acknowledgeSettings {Q : List Frame → Conn → Prop} {E : Exc → C
     generalize (Settings.acknowledge c.remoteSettings).1 = changes at *
     generalize (Settings.acknowledge c.remoteSettings).2 = rs' at *
     have hl1 : Live { c with cstate := t, remoteSettings := rs' } :=
-      ⟨⟨hl.1.ls, hack, hl.1.mof, hl.1.dec⟩, hl0.2.1, hl.2.2⟩
+      ⟨⟨hl.1.ls, hack, hl.1.mof, hl.1.dec, hl.1.ls32⟩, hl0.2.1, hl.2.2⟩
     have fin : ∀ ss, StreamsNotIdle ss →
         Q [Frame.settings true []] (remoteOtherChanges changes { c with cstate := t, remoteSettings := rs', streams := ss }) := by
       intro ss hss
@@ -175,14 +176,14 @@ theorem wp_acknowledgeSettings {Q : List Frame → Conn → Prop} {E : Exc → C
       | none =>
         simp only
         repeat' split
-        all_goals exact ⟨⟨hl.1.ls, hack, hl.1.mof, hl.1.dec⟩, hl0.2.1, hss⟩
+        all_goals exact ⟨⟨hl.1.ls, hack, hl.1.mof, hl.1.dec, hl.1.ls32⟩, hl0.2.1, hss⟩
       | some on =>
         obtain ⟨old, new⟩ := on
         have hm := hch _ _ _ (findChange_mem _ _ _ _ hf)
         have hnew := (validB_frame new hm.1).1
         simp only
         repeat' split
-        all_goals exact ⟨⟨hl.1.ls, hack, hnew, hl.1.dec⟩, hl0.2.1, notIdle_mapMax new hss⟩
+        all_goals exact ⟨⟨hl.1.ls, hack, hnew, hl.1.dec, hl.1.ls32⟩, hl0.2.1, notIdle_mapMax new hss⟩
     unfold remoteWindowChange
     cases hf : findChange changes SettingCodes.INITIAL_WINDOW_SIZE with
     | none => wps; exact fin _ hl1.2.2
@@ -196,8 +197,8 @@ theorem wp_acknowledgeSettings {Q : List Frame → Conn → Prop} {E : Exc → C
         simp only
         apply wp_fcc_live _ _ _ hl1
         · intro ss hss; wps; exact fin ss hss
-        · intro e ss hp; exact he _ _ hp ⟨hl.1.ls, hack, hl.1.mof, hl.1.dec⟩
-  · intro h; exact he _ _ plain_pErr h.1
+        · intro e ss hp hss; exact he _ _ hp ⟨⟨hl.1.ls, hack, hl.1.mof, hl.1.dec, hl.1.ls32⟩, fun _ => hss⟩
+  · intro h; exact he _ _ plain_pErr h
 
 theorem hspec_settings (ack : Bool) (items : List (Int × Int)) (c : Conn) (hwf : WF c) :
     wp (receiveSettingsFrame ack items) HQ CE c := by
@@ -209,7 +210,7 @@ theorem hspec_settings (ack : Bool) (items : List (Int × Int)) (c : Conn) (hwf 
     · wps
       apply wp_localSettingsAcked _ hl
       · intro a c' hl'; wps; exact ⟨hl'.wf, framesOk_nil⟩
-      · intro e c' hp hw; exact CE_plain hp hw
+      · intro e c' hp hw; exact CE_plain hp hw.1
     · wps
       have hu := update_spec c.remoteSettings items hl.1.rs
       cases hU : Settings.update c.remoteSettings items with
@@ -219,14 +220,43 @@ theorem hspec_settings (ack : Bool) (items : List (Int × Int)) (c : Conn) (hwf 
         | error e =>
           simp only
           wps
-          exact CE_plain (hu.2 e rfl) ⟨hl.1.ls, hu.1, hl.1.mof, hl.1.dec⟩
+          exact CE_plain (hu.2 e rfl) ⟨hl.1.ls, hu.1, hl.1.mof, hl.1.dec, hl.1.ls32⟩
         | ok u =>
           simp only
           wps
           apply wp_acknowledgeSettings
-          · exact ⟨⟨hl.1.ls, hu.1, hl.1.mof, hl.1.dec⟩, hl.2.1, hl.2.2⟩
+          · exact ⟨⟨hl.1.ls, hu.1, hl.1.mof, hl.1.dec, hl.1.ls32⟩, hl.2.1, hl.2.2⟩
           · intro fs c' hl' hfs; wps; exact ⟨hl'.wf, hfs⟩
-          · intro e c' hp hw; exact CE_plain hp hw
+          · intro e c' hp hw; exact CE_plain hp hw.1
   · intro h; exact CE_plain plain_pErr h.1
+
+/-- `_receive_settings_frame` on a frame that is not an ACK, called from the application's side (the h2c upgrade hands
+    it the decoded HTTP2-Settings): whether it returns or raises, the invariant holds afterwards, and what it raises is
+    a protocol error with a proper code -/
+theorem settings_user (items : List (Int × Int)) (c : Conn) (hwf : WF c) :
+    wp (receiveSettingsFrame false items) (fun _ c' => WF c') (fun e c' => Plain e ∧ WF c') c := by
+  unfold receiveSettingsFrame
+  wps
+  apply wp_connInput_live _ _ hwf (by unfold notGoaway; decide)
+  · intro t hl
+    simp only [Bool.false_eq_true, if_false]
+    wps
+    have hu := update_spec c.remoteSettings items hl.1.rs
+    cases hU : Settings.update c.remoteSettings items with
+    | mk r s' =>
+      rw [hU] at hu
+      cases r with
+      | error e =>
+        simp only
+        wps
+        exact ⟨hu.2 e rfl, ⟨hl.1.ls, hu.1, hl.1.mof, hl.1.dec, hl.1.ls32⟩, fun _ => hl.2.2⟩
+      | ok u =>
+        simp only
+        wps
+        apply wp_acknowledgeSettings
+        · exact ⟨⟨hl.1.ls, hu.1, hl.1.mof, hl.1.dec, hl.1.ls32⟩, hl.2.1, hl.2.2⟩
+        · intro fs c' hl' hfs; wps; exact hl'.wf
+        · intro e c' hp hw; exact ⟨hp, hw⟩
+  · intro h; exact ⟨plain_pErr, h⟩
 
 end H2
